@@ -111,3 +111,24 @@ def register(PROPS, CLASSIFIERS, REPLAY_RUNNERS):
                     "q_checks": [_lazy("c15", "c15_actors")], "lake_targets": ["driver_actors"]}
     from . import c15cls
     CLASSIFIERS.update(c15cls.CLASSIFIERS)
+
+    # ------------------------------------------------------------------ C08 delayed transitions / C09 invoked services
+    def _c08_replay_monitor(case, obs, flavor):
+        """replays of the C08/C09 findings carry an agenda on a virtual clock: c08.py runs them itself"""
+        from . import c08
+        return c08.replay_monitor(case, obs, flavor)
+
+    def _c08cls(name):
+        def f(prob, case, flavor):
+            from . import c08
+            return c08.CLASSIFIERS[name](prob, case, flavor)
+        return f
+    PROPS["C08"] = {"flavors": ["async", "sync"], "streams": [], "oracles": [_c08_replay_monitor], "oracles_on_replay_only": True,
+                    "q_checks": [_lazy("c08", n) for n in ("c08_async", "c08_placements", "c08_sync")],
+                    "lake_targets": ["driver_rt"], "thorough_scale": 12}
+    PROPS["C09"] = {"flavors": ["async", "sync"], "streams": [], "oracles": [_c08_replay_monitor], "oracles_on_replay_only": True,
+                    "q_checks": [_lazy("c08", n) for n in ("c09_async", "c09_sync")],
+                    "lake_targets": ["driver_rt"], "thorough_scale": 12}
+    for _n in ("stale-queued-after-event", "after-alternatives-fire-once-each", "rollback-leaves-or-duplicates-tasks",
+               "stale-queued-done-event"):
+        CLASSIFIERS[_n] = _c08cls(_n)
